@@ -247,7 +247,7 @@ Qed.
 Definition all_filelocks (cfg : pid -> pconf) : Prop := forall p, is_sem (cfg p) = false.
 
 Lemma filelock_one_slot (cfg : pid -> pconf) p : is_sem (cfg p) = false -> nslots (cfg p) = 1.
-Proof. unfold is_sem, nslots. destruct (p_kind (cfg p)); [reflexivity | discriminate]. Qed.
+Proof. unfold is_sem, nslots. destruct (p_kind (cfg p)); try reflexivity; discriminate. Qed.
 
 Lemma mutex_filelock chk cfg : safe chk cfg -> all_filelocks cfg -> forall l s, run chk cfg init l = Some s ->
   forall p q, inside s p -> inside s q -> p = q.
@@ -654,4 +654,145 @@ Proof.
   destruct (run true f5_cfg init [(0, OTime 0); (0, OOpen); (0, OFlock); (0, OStat)]) as [s|] eqn:E;
     [|vm_compute in E; discriminate].
   exists s. vm_compute in E. injection E as E. subst s. do 3 eexists. split; reflexivity.
+Qed.
+
+(* ------------------------------------------------------------------ lock directory clean-up *)
+
+Ltac clean_inv H :=
+  unfold step_clean in H;
+  match type of H with context[st_pc (ps ?s ?p)] => destruct (st_pc (ps s p)) eqn:Hpc end;
+  try match type of H with context[match ?o with OTime _ => _ | _ => _ end] => destruct o end;
+  cbv iota in H;
+  try discriminate H;
+  repeat match type of H with
+  | context[match ?x with _ => _ end] => destruct x eqn:?
+  end; try discriminate H; inversion H; subst; clear H.
+
+(* every step of a clean-up process except an effective unlink leaves the invariant of the lock users alone *)
+Lemma inv_step_clean chk cfg s p o s' r e :
+  Inv chk cfg s -> step_clean cfg s p o = Some (s', r, e) -> o <> OUnlink -> Inv chk cfg s'.
+Proof.
+  intros HI H Hno. clean_inv H; try (exfalso; apply Hno; reflexivity).
+  all: inst HI p; rw; red_state; selfinst.
+  all: constructor; unfold holds; intros; red_state; brk; red_state; rw; red_state.
+  all: easy_fin HI.
+  all: sat HI; dis; easy_fin HI.
+Qed.
+
+Lemma inv_stepc chk cfg s p o s' r e :
+  safe chk cfg -> Inv chk cfg s -> stepc chk cfg s p o = Some (s', r, e) -> o <> OUnlink -> Inv chk cfg s'.
+Proof.
+  intros HS HI H Hno. unfold stepc in H. destruct (is_clean (cfg p)).
+  - eapply inv_step_clean; eassumption.
+  - eapply inv_step; eassumption.
+Qed.
+
+Lemma inv_runc chk cfg : safe chk cfg -> forall l s0 s,
+  Inv chk cfg s0 -> no_unlink l -> runc chk cfg s0 l = Some s -> Inv chk cfg s.
+Proof.
+  intros HS. induction l as [|[p o] l IH]; intros s0 s H0 Hno Hr; cbn [runc] in Hr.
+  - injection Hr as <-. exact H0.
+  - destruct (stepc chk cfg s0 p o) as [[[s1 r1] e1]|] eqn:E; [|discriminate].
+    eapply IH; [| |exact Hr].
+    + eapply inv_stepc; [exact HS | exact H0 | exact E |]. intros ->. apply (Hno p). left. reflexivity.
+    + intros q Hin. apply (Hno q). right. exact Hin.
+Qed.
+
+(* lock users and clean-up processes together: as long as no clean-up gets as far as unlinking, at most one
+   process is inside per lock file ... *)
+Lemma mutex_with_cleanup_lemma : forall chk cfg l s p q k,
+  safe chk cfg -> runc chk cfg init l = Some s -> no_unlink l ->
+  inside_at s p k -> inside_at s q k -> p = q.
+Proof.
+  intros chk cfg l s p q k HS Hr Hno. apply (mutex_inv chk cfg).
+  eapply inv_runc; [exact HS | apply inv_init | exact Hno | exact Hr].
+Qed.
+
+(* ... and at most n in a semaphore *)
+Lemma bounded_with_cleanup_lemma : forall cfg n l s pids,
+  (forall p, nslots (cfg p) <= n) -> runc true cfg init l = Some s -> no_unlink l ->
+  NoDup pids -> (forall p, In p pids -> inside s p) -> length pids <= n.
+Proof.
+  intros cfg n l s pids Hn Hr Hno. eapply bounded_inv; [|exact Hn].
+  eapply inv_runc; [left; reflexivity | apply inv_init | exact Hno | exact Hr].
+Qed.
+
+(* the age guard, one call at a time: the unlink is only reached from a modification time reading below
+   expire_time, and expire_time is the clock reading of this cleanup_lockdir call minus max_lock_time *)
+Lemma cleanup_guard_step_lemma : forall chk cfg s p o s' r e,
+  is_clean (cfg p) = true -> stepc chk cfg s p o = Some (s', r, e) ->
+  match st_pc (ps s' p) with
+  | CScan ex => exists t, o = OTime t /\ ex = (t - p_timeout (cfg p))%Z
+  | CStat ex => st_pc (ps s p) = CScan ex /\ o = OList
+  | CUnlink => exists ex m, st_pc (ps s p) = CStat ex /\ o = OMtime (Some m) /\ (m < ex)%Z /\ path s' = path s
+  | Idle => True
+  | _ => False
+  end.
+Proof.
+  intros chk cfg s p o s' r e Hc H. unfold stepc in H. rewrite Hc in H.
+  clean_inv H; red_state; rewrite ?Nat.eqb_refl; cbn [st_pc]; auto.
+  - eexists. split; reflexivity.
+  - do 2 eexists. split; [reflexivity|]. split; [reflexivity|]. split; [apply Z.ltb_lt; eassumption | reflexivity].
+Qed.
+
+(* a clean-up process only ever removes the name of the lock file (no flock changes hands, nobody's control state
+   changes) *)
+Lemma cleanup_unlink_effect_lemma : forall chk cfg s p s' r e,
+  is_clean (cfg p) = true -> stepc chk cfg s p OUnlink = Some (s', r, e) ->
+  st_pc (ps s p) = CUnlink /\ owner s' = owner s /\ next s' = next s /\ (forall q, q <> p -> ps s' q = ps s q) /\
+  (forall k, k <> 0 -> path s' k = path s k).
+Proof.
+  intros chk cfg s p s' r e Hc H. unfold stepc in H. rewrite Hc in H.
+  clean_inv H; red_state; (split; [reflexivity|]); (split; [reflexivity|]); (split; [reflexivity|]); split; intros; brk; try reflexivity; contradiction.
+Qed.
+
+(* non-vacuity: a holder, a waiter whose attempt fails, a clean-up pass with max_lock_time 10 at clock 5 that sees
+   the lock file modified at 1 and leaves it alone *)
+Definition clean_cfg : pid -> pconf :=
+  fun p => match p with 2 => mk_pconf KClean 10 | _ => mk_pconf (KFile true) 30 end.
+Definition clean_schedule : list label :=
+  [ (0, OTime 0); (0, OOpen); (0, OFlock); (0, OStat);
+    (1, OTime 1); (1, OOpen); (1, OFlock); (1, OClose);
+    (2, OTime 5); (2, OList); (2, OMtime (Some 1%Z)) ].
+Example cleanup_young_file_kept :
+  exists s, runc true clean_cfg init clean_schedule = Some s /\ no_unlink clean_schedule /\
+            inside s 0 /\ st_pc (ps s 2) = Idle /\ path s 0 = Some 0.
+Proof.
+  destruct (runc true clean_cfg init clean_schedule) as [s|] eqn:E; [|vm_compute in E; discriminate].
+  exists s. split; [reflexivity|]. vm_compute in E. injection E as E. subst s.
+  split; [|split; [exists 0, 0; reflexivity | split; reflexivity]].
+  intros p Hin. cbn in Hin. repeat (destruct Hin as [Hin|Hin]; [discriminate Hin|]). exact Hin.
+Qed.
+
+(* ------------------------------------------------------------------ unlock is idempotent *)
+
+(* FileLock.unlock() on a lock that is not held (second unlock, __del__ after unlock): `if self._locked` is false, no
+   call is made.  In the model: outside the locked section no release call is enabled - os.remove never, close
+   only for the file an unlock-by-remove left open (its drop) - so a process that is outside cannot touch the
+   lock file of the next holder. *)
+Lemma unlock_idempotent_lemma : forall chk cfg s p,
+  st_pc (ps s p) = Idle ->
+  step chk cfg s p ORemove = None /\
+  (st_zomb (ps s p) = None -> step chk cfg s p OClose = None) /\
+  (forall s' r e, step chk cfg s p OClose = Some (s', r, e) -> path s' = path s /\ st_pc (ps s' p) = Idle).
+Proof.
+  intros chk cfg s p Hpc. unfold step. rewrite Hpc. split; [reflexivity|]. split.
+  - intros ->. reflexivity.
+  - intros s' r e H. destruct (st_zomb (ps s p)); [|discriminate]. injection H as <- _ _.
+    red_state. rewrite Nat.eqb_refl. split; reflexivity.
+Qed.
+
+(* the hypothesis no_unlink cannot be dropped: the documented override.  A holder whose lock file looks older than
+   max_lock_time (it holds the lock for 100 s, max_lock_time is 10 s) loses the name of its file to the clean-up and
+   a second process gets in. *)
+Definition override_schedule : list label :=
+  [ (0, OTime 0); (0, OOpen); (0, OFlock); (0, OStat);
+    (2, OTime 100); (2, OList); (2, OMtime (Some 0%Z)); (2, OUnlink);
+    (1, OTime 100); (1, OOpen); (1, OFlock); (1, OStat) ].
+Lemma cleanup_override_two_inside :
+  exists s, runc true clean_cfg init override_schedule = Some s /\ inside_at s 0 0 /\ inside_at s 1 0.
+Proof.
+  destruct (runc true clean_cfg init override_schedule) as [s|] eqn:E; [|vm_compute in E; discriminate].
+  exists s. split; [reflexivity|]. vm_compute in E. injection E as E. subst s.
+  split; eexists; reflexivity.
 Qed.
